@@ -68,10 +68,12 @@ def never_bound(text, rel, names):
         if items_named(text, n) or imp.get(n):
             raise Unsupported("%s: %s is defined or imported here (the translator reads it as the prelude's / key.rs's)" % (rel, n))
 
-def hash_types(text, rel, uses_hmac):
+def hash_types(text, rel, uses_hmac, uses_digest=True):
     """`Sha1`, `Digest` (and `Hmac`, `Mac`, `FixedOutput` when used) are the sha1 / hmac crates' (one plain `use` each, no local item)"""
     imp = no_foreign_globs(text, rel)
-    need = {"Sha1": ["sha1::Sha1"], "Digest": ["sha1::Digest"]}
+    need = {"Sha1": ["sha1::Sha1"]}
+    if uses_digest: need["Digest"] = ["sha1::Digest"]
+    elif imp.get("Digest", ["sha1::Digest"]) != ["sha1::Digest"]: raise Unsupported("%s: Digest imported from %s" % (rel, imp.get("Digest")))
     if uses_hmac: need.update({"Hmac": ["hmac::Hmac"], "Mac": ["hmac::Mac"]})
     for tn, paths in need.items():
         if imp.get(tn) != paths or items_named(text, tn):
